@@ -25,6 +25,7 @@ import (
 	"google.golang.org/genproto/googleapis/api/annotations"
 	"google.golang.org/genproto/googleapis/api/httpbody"
 	"google.golang.org/grpc"
+	"google.golang.org/grpc/metadata"
 	"google.golang.org/protobuf/encoding/protojson"
 	"google.golang.org/protobuf/proto"
 	"google.golang.org/protobuf/reflect/protoreflect"
@@ -47,6 +48,7 @@ type TcAbs struct {
 	Table    bool   `json:"table"`    // draw values from the boundary tables
 	Stream   bool   `json:"stream"`   // first message of a client stream instead of a unary call
 	ZeroPath bool   `json:"zeropath"` // p1 carries the zero value of its kind (0, false, enum 0)
+	Framing  string `json:"framing"`  // how the request body is delimited: "" sized | unsized (HTTP/2, no content-length) | chunked (HTTP/1.1)
 }
 
 type TcEv struct {
@@ -107,7 +109,7 @@ type val struct {
 	isMsg bool
 }
 
-var strTable = []string{"a", "hello", "x-y_z.w~", "ünï書", "0", "true", "null", "a+b", "q=1&r=2", "%41", "sp ace", "\"quoted\"", strings.Repeat("long", 64)}
+var strTable = []string{"", "a", "hello", "x-y_z.w~", "ünï書", "0", "true", "null", "a+b", "q=1&r=2", "%41", "sp ace", "\"quoted\"", strings.Repeat("long", 64)}
 var strPathTable = []string{"a", "hello", "x-y_z.w~", "ünï書", "0", "true", "null", "a+b", "a,b;c=d@e", "(x)'!$&*", strings.Repeat("p", 200)}
 var i32Table = []int64{1, -1, 7, math.MaxInt32, math.MinInt32, 100, -40}
 var i64Table = []int64{1, -1, math.MaxInt64, math.MinInt64, 1 << 53, -(1 << 53) - 1, 1 << 32}
@@ -115,7 +117,7 @@ var u32Table = []uint64{1, 7, math.MaxUint32, 1 << 31}
 var u64Table = []uint64{1, math.MaxUint64, 1 << 63, 1 << 53}
 var f64Table = []float64{1.5, -0.25, 1e300, 5e-324, math.MaxFloat64, 3, 1e21, 0.1}
 var f32Table = []float64{1.5, -0.25, float64(math.MaxFloat32), 3, 0.1, 16777216}
-var bytesTable = [][]byte{{1}, {0xff, 0xfe}, {0xfb, 0xff, 0xbf}, {0, 0, 0, 0}, []byte("hello"), {0xff}, bytes.Repeat([]byte{0x3e, 0x3f}, 7)}
+var bytesTable = [][]byte{{}, {1}, {0xff, 0xfe}, {0xfb, 0xff, 0xbf}, {0, 0, 0, 0}, []byte("hello"), {0xff}, bytes.Repeat([]byte{0x3e, 0x3f}, 7)}
 
 func (r *rng) pick(n int) int { return r.Intn(n) }
 
@@ -309,32 +311,32 @@ func snakeToCamel(s string) string {
 }
 
 // invalidText gives a text that is not valid for the kind under any reading.
-func invalidText(k string, r *rng) string {
+func invalidText(k string, r *rng) (string, bool) {
 	switch k {
 	case "int32", "wint32":
-		return []string{"2147483648", "-2147483649", "12x", "abc", "1.5.2", "--1", "0x10"}[r.pick(7)]
+		return []string{"", "2147483648", "-2147483649", "12x", "abc", "1.5.2", "--1", "0x10"}[r.pick(8)], true
 	case "int64", "wint64":
-		return []string{"9223372036854775808", "-9223372036854775809", "12x", "abc", "1_000"}[r.pick(5)]
+		return []string{"", "9223372036854775808", "-9223372036854775809", "12x", "abc", "1_000"}[r.pick(6)], true
 	case "uint32", "wuint32":
-		return []string{"4294967296", "-1", "12x", "abc"}[r.pick(4)]
+		return []string{"", "4294967296", "-1", "12x", "abc"}[r.pick(5)], true
 	case "uint64", "wuint64":
-		return []string{"18446744073709551616", "-1", "12x", "abc"}[r.pick(4)]
+		return []string{"", "18446744073709551616", "-1", "12x", "abc"}[r.pick(5)], true
 	case "bool", "wbool":
-		return []string{"yes", "2", "tru", "t"}[r.pick(4)]
+		return []string{"", "yes", "2", "tru", "t"}[r.pick(5)], true
 	case "float", "wfloat":
-		return []string{"abc", "1.2.3", "1e", "--1", "1,5", "3.5e38", "-3.5e38", "1e39", "1e400"}[r.pick(9)]
+		return []string{"", "abc", "1.2.3", "1e", "--1", "1,5", "3.5e38", "-3.5e38", "1e39", "1e400"}[r.pick(10)], true
 	case "double", "wdouble":
-		return []string{"abc", "1.2.3", "1e", "--1", "1,5", "1e400", "-1e999"}[r.pick(7)]
+		return []string{"", "abc", "1.2.3", "1e", "--1", "1,5", "1e400", "-1e999"}[r.pick(8)], true
 	case "bytes", "wbytes":
-		return []string{"!!!!", "a", "ab!d", "****"}[r.pick(4)]
+		return []string{"!!!!", "a", "ab!d", "****"}[r.pick(4)], true
 	case "enum":
-		return []string{"PURPLE", "red", "1x", "RED_"}[r.pick(4)]
+		return []string{"", "PURPLE", "red", "1x", "RED_"}[r.pick(5)], true
 	case "ts":
-		return []string{"yesterday", "2020-13-01T00:00:00Z", "2020-01-01", "12345"}[r.pick(4)]
+		return []string{"yesterday", "2020-13-01T00:00:00Z", "2020-01-01", "12345"}[r.pick(4)], true
 	case "du":
-		return []string{"1", "1m", "abc", "1.5"}[r.pick(4)]
+		return []string{"1", "1m", "abc", "1.5"}[r.pick(4)], true
 	}
-	return ""
+	return "", false
 }
 
 // ---- message plumbing -----------------------------------------------------------------
@@ -471,7 +473,11 @@ func runTcCase(c TcAbs, seed int64) TcEv {
 	}
 	vals := map[string]val{}
 	for k, l := range role {
-		vals[k] = genVal(l.kind, r, c.Table, k == "p1" || k == "p2")
+		forPath := k == "p1" || k == "p2"
+		vals[k] = genVal(l.kind, r, c.Table, forPath)
+		for tries := 0; forPath && vals[k].text == "" && tries < 20; tries++ { // a path segment cannot be empty
+			vals[k] = genVal(l.kind, r, c.Table, forPath)
+		}
 	}
 	if c.ZeroPath { // the path carries the zero value of a presence-less kind; the competitors are non-zero
 		if z, ok := zeroVal(role["p1"].kind); ok {
@@ -541,7 +547,7 @@ func runTcCase(c TcAbs, seed int64) TcEv {
 	}
 	textOf := func(k string) string {
 		if c.Invalid == k {
-			if t := invalidText(role[k].kind, r); t != "" {
+			if t, ok := invalidText(role[k].kind, r); ok {
 				return t
 			}
 			ev.C.Invalid = "" // every text is valid for this kind: an ordinary case
@@ -647,6 +653,14 @@ func runTcCase(c TcAbs, seed int64) TcEv {
 	if c.Body != "none" {
 		req.Body = io.NopCloser(bytes.NewReader(body))
 		req.ContentLength = int64(len(body))
+		switch c.Framing {
+		case "unsized":
+			req.ContentLength = -1
+			req.ProtoMajor, req.ProtoMinor, req.Proto = 2, 0, "HTTP/2.0"
+		case "chunked":
+			req.ContentLength = -1
+			req.TransferEncoding = []string{"chunked"}
+		}
 		if c.Codec == "json" {
 			req.Header.Set("Content-Type", "application/json")
 		} else {
@@ -692,8 +706,10 @@ func runTcCase(c TcAbs, seed int64) TcEv {
 	}
 	for _, k := range []string{"p1", "p2", "q1", "q2", "n", "b1", "b2"} {
 		_, has := getLeaf(got.ProtoReflect(), role[k].path)
+		fds := fdPath(reqDesc(), role[k].path)
+		emptyNoPresence := present[k] && vals[k].text == "" && !vals[k].isMsg && !fds[len(fds)-1].HasPresence()
 		switch {
-		case vals[k].zero && !has:
+		case (vals[k].zero || emptyNoPresence) && !has:
 			ev.Tags[k] = "true" // the zero value is the absence of the field
 		case leafEquals(got, role[k].path, vals[k]):
 			ev.Tags[k] = "true"
@@ -774,6 +790,7 @@ type RespCase struct {
 	RespBody  string   `json:"respbody"` // "" | sub | echo
 	AcceptEnc string   `json:"acceptenc"`
 	Junk      string   `json:"junk"` // extra unparseable text appended to the Accept header
+	Hdr       string   `json:"hdr"`  // "" | set | send: the handler calls grpc.SetHeader / grpc.SendHeader before it returns the reply
 }
 type RespEv struct {
 	Ev         string   `json:"ev"`
@@ -811,7 +828,8 @@ func runRespCase(c RespCase, seed int64) RespEv {
 		ev.Crash = "setup: " + err.Error()
 		return ev
 	}
-	mux, err := larking.NewMux(larking.FilesOption(files))
+	// a codec the user registered for a media type of their own, next to the built-in ones
+	mux, err := larking.NewMux(larking.FilesOption(files), larking.CodecOption("application/x-verif", larking.CodecJSON{}))
 	if err != nil {
 		ev.Crash = "setup: " + err.Error()
 		return ev
@@ -856,6 +874,12 @@ func runRespCase(c RespCase, seed int64) RespEv {
 		}
 	}
 	un := func(ctx context.Context, full string, req *dynamicpb.Message) (proto.Message, error) {
+		switch c.Hdr {
+		case "set":
+			grpc.SetHeader(ctx, metadata.Pairs("x-h", "1"))
+		case "send":
+			grpc.SendHeader(ctx, metadata.Pairs("x-h", "1"))
+		}
 		return reply, nil
 	}
 	if err := larking.VerifRegisterService(mux, MakeServiceDesc(sds[0], un, nil), struct{}{}); err != nil {
@@ -947,7 +971,7 @@ func runRespCase(c RespCase, seed int64) RespEv {
 	}
 	got := wantSel.ProtoReflect().New().Interface()
 	switch ev.CT {
-	case "application/json":
+	case "application/json", "application/x-verif":
 		ev.Decoded = protojson.Unmarshal(body, got) == nil && proto.Equal(got, wantSel)
 	case "application/protobuf", "application/octet-stream":
 		ev.Decoded = proto.Unmarshal(body, got) == nil && proto.Equal(got, wantSel)
